@@ -69,6 +69,11 @@ class Driver:
         fn = getattr(self, "op_" + kind, None) or self.hooks.get(kind)
         if fn is None:
             raise ValueError(f"unknown op {kind}")
+        # a shrunk scenario may have lost the endpoint an op refers to: such ops are skipped, not failed
+        if "h" in op and kind != "host" and op["h"] not in self.w.hosts:
+            return
+        if "p" in op and kind != "peer" and op["p"] not in self.w.peers:
+            return
         entry = fn(op)
         self.op_log.append((i, op, entry))
 
